@@ -142,7 +142,6 @@ def h_json(nr, nc, axis):
     keep = list(subs[choice(len(subs), 'subset')])
     ids = [a.ids(axis)[k] for k in keep]
     src = SDoc(doc) if B().mode == 'sym' else json.dumps(doc)
-    form = pick(['string', 'list-of-lines'], 'input-form') if B().mode == 'conc' else 'string'
     sig = dict(axis=axis)
     r, e = call(lambda: P.parse_biom_table(src, ids=ids, axis=axis))
     if e is not None:
